@@ -63,14 +63,14 @@ def shutdown_flag(prog: Program) -> str:
 
 
 def shutdown_event(prog: Program) -> str:
-    """the event ServiceRunner.shutdown waits for"""
+    """the event ServiceRunner.shutdown waits for (None: it waits for none)"""
 
     def find():
         sd = prog.method(SERVICE_RUNNER, "shutdown")
         for n in ast.walk(sd.node):
             if isinstance(n, ast.Call) and isinstance(n.func, ast.Attribute) and n.func.attr == "wait" and _self_attr(n.func.value):
                 return _self_attr(n.func.value)
-        raise Undecided("shutdown() waits for no event", sd.node)
+        return None  # shutdown() waits for nothing: the obligations on the event are vacuous
 
     return _memo(prog, "shutdown_event", find)
 
@@ -208,15 +208,17 @@ def load_services(prog: Program):
                         partials[t.id] = n.value.args[0]
         for n in ast.walk(run.node):
             if isinstance(n, ast.Call) and isinstance(n.func, ast.Attribute) and n.func.attr == "adopt" and n.args:
-                a = n.args[0]
-                if isinstance(a, ast.Call) and prog.resolve(run.module, a.func) == "ext:functools.partial" and a.args:
-                    a = a.args[0]
-                if isinstance(a, ast.Name) and a.id in partials:
-                    a = partials[a.id]
-                if isinstance(a, ast.Name):
-                    r = prog.resolve(run.module, a)
-                    if r in prog.functions:
-                        return prog.functions[r]
+                # the payload is the first argument; a function found in a later position is still "the loader"
+                # (the rule then reports that it is not what is adopted)
+                for a in n.args:
+                    if isinstance(a, ast.Call) and prog.resolve(run.module, a.func) == "ext:functools.partial" and a.args:
+                        a = a.args[0]
+                    if isinstance(a, ast.Name) and a.id in partials:
+                        a = partials[a.id]
+                    if isinstance(a, ast.Name):
+                        r = prog.resolve(run.module, a)
+                        if r in prog.functions:
+                            return prog.functions[r]
         raise Undecided("run() adopts no loader function", run.node)
 
     return _memo(prog, "load_services", find)
